@@ -28,7 +28,9 @@ import traceback
 VERIF = os.path.dirname(os.path.dirname(os.path.abspath(__file__)))
 REPO = os.path.abspath(os.environ.get("VERIF_REPO", "/repo"))
 OUT = os.path.join(VERIF, "out")
-EVIDENCE = os.path.join(VERIF, "evidence")
+# evidence under /verif/evidence is only ever written by runs against /repo itself; runs against a
+# scratch copy (sensitivity self-test, seeded patches) write theirs under out/
+EVIDENCE = os.path.join(VERIF, "evidence") if REPO == "/repo" else os.path.join(OUT, "evidence-scratch-repo")
 REPLAYS = os.path.join(OUT, "replays")
 KNOWN_FILE = os.path.join(VERIF, "known_findings.json")
 TMPBASE = os.environ.get("VERIF_TMP", "/dev/shm")
